@@ -11,19 +11,35 @@ def dkey (T : Nat) (drop : List Key) (k : Key) : Bool := drop.contains k ∧ k.2
 
 theorem dropped_eq (T : Nat) (drop : List Key) (r : Rec) : dropped T drop r = dkey T drop r.key := rfl
 
-/-- what pack does to a kept record: resolve its back pointer when needed -/
-def adj (T : Nat) (drop : List Key) (h : List Rec) (r : Rec) : Rec :=
-  if r.tid ≤ T ∨ h.any (fun q => q.key = (r.oid, r.src) ∧ dropped T drop q) then
-    { r with src := r.tid } else r
+theorem adjBack_key (T drop h r) : (adjBack T drop h r).key = r.key := by
+  unfold adjBack; split <;> rfl
+theorem adjBack_kind (T drop h r) : (adjBack T drop h r).kind = r.kind := by
+  unfold adjBack; split <;> rfl
+theorem adjBack_oid (T drop h r) : (adjBack T drop h r).oid = r.oid := by
+  unfold adjBack; split <;> rfl
+theorem adjBack_tid (T drop h r) : (adjBack T drop h r).tid = r.tid := by
+  unfold adjBack; split <;> rfl
+theorem adjBack_src (T drop h r) : (adjBack T drop h r).src = r.src := by
+  unfold adjBack; split <;> rfl
+theorem adjSrc_key (T drop h r) : (adjSrc T drop h r).key = r.key := by
+  unfold adjSrc; split <;> rfl
+theorem adjSrc_kind (T drop h r) : (adjSrc T drop h r).kind = r.kind := by
+  unfold adjSrc; split <;> rfl
+theorem adjSrc_oid (T drop h r) : (adjSrc T drop h r).oid = r.oid := by
+  unfold adjSrc; split <;> rfl
+theorem adjSrc_tid (T drop h r) : (adjSrc T drop h r).tid = r.tid := by
+  unfold adjSrc; split <;> rfl
 
 theorem adj_key (T drop h r) : (adj T drop h r).key = r.key := by
-  unfold adj; split <;> rfl
+  unfold adj; rw [adjBack_key, adjSrc_key]
 theorem adj_kind (T drop h r) : (adj T drop h r).kind = r.kind := by
-  unfold adj; split <;> rfl
+  unfold adj; rw [adjBack_kind, adjSrc_kind]
 theorem adj_oid (T drop h r) : (adj T drop h r).oid = r.oid := by
-  unfold adj; split <;> rfl
+  unfold adj; rw [adjBack_oid, adjSrc_oid]
 theorem adj_tid (T drop h r) : (adj T drop h r).tid = r.tid := by
-  unfold adj; split <;> rfl
+  unfold adj; rw [adjBack_tid, adjSrc_tid]
+theorem adj_src (T drop h r) : (adj T drop h r).src = (adjSrc T drop h r).src := by
+  unfold adj; rw [adjBack_src]
 
 theorem mem_packHist {T : Nat} {drop : List Key} {h : List Rec} {r' : Rec} :
     r' ∈ packHist T drop h ↔ ∃ r ∈ h, dkey T drop r.key = false ∧ r' = adj T drop h r := by
@@ -135,7 +151,8 @@ theorem inv_pack_fs {s : St} (h : Inv s) (hfl : s.flavor = .fs) (hn : s.txn = no
       aget (removeTagged keepOld s.files (tagged T drop s.hist)).1
           ((adj T drop s.hist r).oid, (adj T drop s.hist r).src)
         = aget (removeTagged keepOld s.files (tagged T drop s.hist)).1 (adj T drop s.hist r).key
-    unfold adj
+    rw [adj_src, adj_tid, adj_oid, adj_key]
+    unfold adjSrc
     split
     · exact ⟨Nat.le_refl _, rfl⟩
     · rename_i hc
@@ -224,7 +241,8 @@ theorem inv_pack_wrap {s : St} (h : Inv s) (hfl : s.flavor = .wrap) (hn : s.txn 
     obtain ⟨r, hr, _, rfl⟩ := mem_packHist.1 hr'
     obtain ⟨h1, h2⟩ := hwh r hr
     refine ⟨by rw [adj_kind]; exact h1, ?_⟩
-    unfold adj; split
+    rw [adj_src, adj_tid]
+    unfold adjSrc; split
     · rfl
     · exact h2
   constructor
